@@ -962,13 +962,20 @@ func (c *Compiler) compileCall(node *ast.Call) error {
 	if argc > MaxArgs {
 		return fmt.Errorf("compile error: max args limit of %d exceeded (got %d)", MaxArgs, argc)
 	}
-	if err := c.compile(node.Function()); err != nil {
+	// The function expression and the arguments are ordinary expressions, also
+	// when this call is a stage of a pipe and is itself compiled to a partial:
+	// calls nested in them must be made, not turned into partials as well.
+	pipeActive := c.current.pipeActive
+	c.current.pipeActive = false
+	err := c.compile(node.Function())
+	if err == nil {
+		err = c.compileArgs(args)
+	}
+	c.current.pipeActive = pipeActive
+	if err != nil {
 		return err
 	}
-	if err := c.compileArgs(args); err != nil {
-		return err
-	}
-	if c.current.pipeActive {
+	if pipeActive {
 		c.emit(op.Partial, uint16(argc))
 	} else {
 		c.emit(op.Call, uint16(argc))
@@ -977,28 +984,33 @@ func (c *Compiler) compileCall(node *ast.Call) error {
 }
 
 func (c *Compiler) compileObjectCall(node *ast.ObjectCall) error {
-	if err := c.compile(node.Object()); err != nil {
-		return err
-	}
 	expr := node.Call()
 	method, ok := expr.(*ast.Call)
 	if !ok {
 		return fmt.Errorf("compile error: invalid call expression")
 	}
-	name := method.Function().String()
-	c.emit(op.LoadAttr, c.current.addName(name))
 	args := method.Arguments()
 	argc := len(args)
 	if argc > MaxArgs {
 		return fmt.Errorf("compile error: max args limit of %d exceeded (got %d)", MaxArgs, argc)
 	}
-	if err := c.compileArgs(args); err != nil {
+	// As in compileCall: the object and the arguments are ordinary expressions
+	pipeActive := c.current.pipeActive
+	c.current.pipeActive = false
+	err := c.compile(node.Object())
+	if err == nil {
+		name := method.Function().String()
+		c.emit(op.LoadAttr, c.current.addName(name))
+		err = c.compileArgs(args)
+	}
+	c.current.pipeActive = pipeActive
+	if err != nil {
 		return err
 	}
-	if c.current.pipeActive {
-		c.emit(op.Partial, uint16(len(args)))
+	if pipeActive {
+		c.emit(op.Partial, uint16(argc))
 	} else {
-		c.emit(op.Call, uint16(len(args)))
+		c.emit(op.Call, uint16(argc))
 	}
 	return nil
 }
